@@ -927,3 +927,32 @@ def signext(facts: CppFacts):
                 res.samples.append(f"{cls}::{meth}: raw value through {conv or 'a kBits-dependent expression'}")
     res.analysed = ["runtime/cpp/emboss_prelude.h", "runtime/cpp/emboss_enum_view.h"]
     return res
+
+
+# ---- R-NARROWARG ----------------------------------------------------------------------------------------
+def narrowarg(facts: CppFacts):
+    """R-NARROWARG (C03): `CouldWriteValue(v)` can only judge the value the caller wrote if it receives it
+    unconverted.  A parameter of the view's own (narrow) integer ValueType converts the argument implicitly at the
+    call — 256 becomes 0 for a uint8_t — before any range test runs.  UIntView and IntView therefore take a template
+    parameter type; every integer-valued scalar view must do the same for CouldWriteValue, TryToWrite and Write."""
+    res = RuleResult("R-NARROWARG")
+    for cls in ("UIntView", "IntView", "BcdView"):
+        own = {}
+        for m in facts.by_class(cls):
+            own.setdefault(m.name, m)
+        for meth in ("CouldWriteValue", "TryToWrite", "Write"):
+            m = own.get(meth)
+            if m is None:
+                raise AnalysisError(f"{cls}::{meth} vanished")
+            res.instances += 1
+            ptype = m.params[0][0] if m.params else ""
+            bare = re.sub(r"\b(const|volatile)\b|[&\s]", "", ptype)
+            templated = bool(bare) and bare != "ValueType" and not bare.endswith("::ValueType")
+            if not templated:
+                res.add(f"{m.file}|{cls}::{meth}|narrowing", f"{cls}::{meth} takes `{ptype or 'ValueType'} value`: an argument outside the value "
+                        f"type's range is narrowed at the call before it is examined (256 -> 0 for an 8-bit {cls[:-4]}), so "
+                        "CouldWriteValue/TryToWrite accept values that are not representable", m.file, m.line, f"{cls}::{meth}")
+            elif len(res.samples) < 3:
+                res.samples.append(f"{cls}::{meth}: templated on the argument type")
+    res.analysed = ["runtime/cpp/emboss_prelude.h"]
+    return res
